@@ -79,10 +79,11 @@ def unit_name(u):
     return u[0] if u[1] is None else f"{u[0]}.{u[1]}"
 
 
-def shell_text(script, uname, tag, mdir):
+def shell_text(script, uname, tag, mdir, to_file=True):
     m = shlex.quote(str(mdir))
     cnt = f"{m}/{uname}.cnt"
-    write = f"printf %s {uname}:{tag}:n$n > res.txt"
+    # the result goes into the declared return file, or to stdout for jobs that declare none
+    write = f"printf %s {uname}:{tag}:n$n" + (" > res.txt" if to_file else "")
     head = f"echo x >> {cnt}; n=$(wc -l < {cnt}); n=$((n+0)); "
     if script == "S":
         return head + write, ":"
@@ -97,37 +98,52 @@ def shell_text(script, uname, tag, mdir):
     raise HarnessError(f"unknown script {script}")
 
 
+# job declarations: with a return file / without return_files (None, results on stdout, like
+# XTBDriver.energy_m) / with an empty tuple (like XTBDriver.atom_properties_m)
+DECLS = {"file": ("res.txt",), "none": None, "empty": ()}
+DECL_LABEL = {"file": "return_files=tuple", "none": "return_files=None", "empty": "return_files=()"}
+JOB_OF = {"file": "calc", "none": "calc_out", "empty": "calc_nof"}
+
+
 def make_driver_class():
-    class MapDriver(DriverBase):
-        default_executable = "sh"
+    def prep(self, M, tag="A", mdir=None):
+        u = unit_of(M)
+        c0, c1 = shell_text(PLAN[u], unit_name(u), tag, mdir, to_file=bool(self.return_files))
+        return JobInput(
+            unit_name(u),
+            commands=[
+                (shlex.join([self.executable, "-c", c0]), "main"),
+                (shlex.join([self.executable, "-c", c1]), None),
+            ],
+            files={"note.txt": f"{unit_name(u)} {tag}"},
+            return_files=self.return_files,
+            envars=self.envars,
+        )
 
-        @Job(return_files=("res.txt",)).prep
-        def calc(self, M, tag="A", mdir=None):
-            u = unit_of(M)
-            c0, c1 = shell_text(PLAN[u], unit_name(u), tag, mdir)
-            return JobInput(
-                unit_name(u),
-                commands=[
-                    (shlex.join([self.executable, "-c", c0]), "main"),
-                    (shlex.join([self.executable, "-c", c1]), None),
-                ],
-                files={"note.txt": f"{unit_name(u)} {tag}"},
-                return_files=self.return_files,
-                envars=self.envars,
-            )
+    def post(self, out, M, **kwargs):
+        if self.return_files:
+            res = bytes(out.files["res.txt"])
+        else:
+            res = out.stdouts["main"].encode()
+            if not res:
+                raise ValueError("no result on stdout")
+        return b"post(" + res + b")"
 
-        @calc.post
-        def calc(self, out, M, **kwargs):
-            res = out.files["res.txt"]
-            return b"post(" + bytes(res) + b")"
+    def reduce(self, outputs, ens, *args, **kwargs):
+        return b"|".join(outputs)
 
-        calc_ens = Job.vectorize(calc)
-
-        @calc_ens.reduce
-        def calc_ens(self, outputs, ens, *args, **kwargs):
-            return b"|".join(outputs)
-
-    return MapDriver
+    # the calls the decorators of XTBDriver make: Job(...).prep(f), .post(f), Job.vectorize(job), .reduce(f)
+    ns = {"default_executable": "sh"}
+    for decl, jname in JOB_OF.items():
+        kw = {} if DECLS[decl] is None else {"return_files": DECLS[decl]}
+        job = Job(name=jname, **kw).prep(prep)
+        job.post(post)
+        vec = Job.vectorize(job, name=jname + "_ens")
+        vec.reduce(reduce)
+        vec.name = jname + "_ens"
+        ns[jname] = job
+        ns[jname + "_ens"] = vec
+    return type("MapDriver", (DriverBase,), ns)
 
 
 _DRIVER = None
@@ -235,6 +251,8 @@ class World:
         self.ctx = ctx
         self.cfg = cfg
         self.kind = cfg["kind"]
+        self.decl = cfg.get("decl", "file")
+        self.label = f"{cfg['kind']},{DECL_LABEL[self.decl]}"
         self.keys = list(cfg["keys"])
         self.nconf = 2 if self.kind == "vector" else None
         self.root = root
@@ -399,7 +417,7 @@ class World:
             reason = "cached-output-of-failed-run"
         else:
             reason = None
-        if reason is None and not rec[2]:
+        if reason is None and not rec[2] and self.decl == "file":
             return (0, 1), None  # commands exited 0 but the requested file was missing: see assumptions
         return ((0,), None) if reason is None else ((1,), reason)
 
@@ -410,7 +428,7 @@ class World:
         PLAN.clear()
         PLAN.update(self.plan)
         drv = driver()
-        job = drv.calc if kind == "single" else drv.calc_ens
+        job = getattr(drv, JOB_OF[self.decl] + ("" if kind == "single" else "_ens"))
         if kind == "single":
             source = ml.MoleculeLibrary(self.src_path, readonly=True)
         else:
@@ -460,7 +478,7 @@ class World:
         """Returns True when the run agrees with the model (the model is advanced)."""
         ctx = self.ctx
         m = self.model
-        kind = self.kind
+        kind = self.label
         exc, where, executed, residue = self.execute(case)
         ctx.count(transitions=1 + sum(executed.values()))
 
@@ -514,12 +532,12 @@ class World:
             recs = [m.cache.get(unit_name(u)) for u in self.units[k]]
             if all(r is not None and r[0] == m.tag and r[1] and r[2] for r in recs):
                 parts = [b"post(" + r[3] + b")" for r in recs]
-                newdest[k] = parts[0] if kind == "single" else b"|".join(parts)
+                newdest[k] = parts[0] if self.kind == "single" else b"|".join(parts)
                 outcome_class[k] = "succeeded"
             elif all(r is not None and r[2] for r in recs):
                 outcome_class[k] = "failed-after-writing-the-file"
             elif all(r is not None and r[1] for r in recs):
-                outcome_class[k] = "return-file-missing"
+                outcome_class[k] = "return-file-missing" if self.decl == "file" else "empty-result"
             else:
                 outcome_class[k] = "failed"
         self.expected_dest = newdest
@@ -559,6 +577,21 @@ class World:
             ctx.add_note("scratch_residue_runs", 1)
         if not ok:
             return False
+        # every output written in this run carries the hash of the input it was computed from
+        for un in sorted(executed):
+            if executed[un] < 1:
+                continue
+            pi = self.cache_dir / "input" / f"{un}.inp"
+            po = self.cache_dir / "output" / f"{un}.out"
+            if not (pi.is_file() and po.is_file()):
+                continue
+            try:
+                ih, oh = JobInput.load(pi).hash, JobOutput.load(po).input_hash
+            except Exception:
+                continue
+            if ih != oh:
+                viol(f"jobmap[{kind}]:output:input_hash-differs-from-JobInput.hash", f"{un}.out records input_hash {oh!r}, the input file it was computed from hashes to {ih!r}")
+                return False
         m.dest = newdest
         self.last_obs = (tuple(sorted(executed.items())), tuple(sorted(real.items())))
         return True
@@ -677,7 +710,7 @@ def rot(lst, seed):
     return lst[r:] + lst[:r]
 
 
-def configs(kind, keys, unit_plans):
+def configs(kind, keys, unit_plans, decl="file"):
     """Every initial configuration: per key either 'already in the destination' or a plan for its units
     (unit_plans: one list of plans for all keys, or a dict key -> list); x foreign key present or not."""
     per_key = [["DEST"] + list(unit_plans[k] if isinstance(unit_plans, dict) else unit_plans) for k in keys]
@@ -692,7 +725,7 @@ def configs(kind, keys, unit_plans):
                     plan[k] = ["S"] * (1 if kind == "single" else 2)
                 else:
                     plan[k] = list(c)
-            out.append({"kind": kind, "keys": list(keys), "plan": plan, "prepop": prepop, "foreign": foreign})
+            out.append({"kind": kind, "decl": decl, "keys": list(keys), "plan": plan, "prepop": prepop, "foreign": foreign})
     return out
 
 
@@ -715,7 +748,7 @@ def explore(ctx, cfg, depth, corrupt_kinds, real_runner=False, seen=None):
             return
         key = world.model.canon()
         m = world.model
-        c = (cfg["kind"], tuple(sorted((k, tuple(v)) for k, v in cfg["plan"].items())), tuple(cfg["prepop"]), cfg["foreign"], m.canon())
+        c = (cfg["kind"], cfg.get("decl", "file"), tuple(sorted((k, tuple(v)) for k, v in cfg["plan"].items())), tuple(cfg["prepop"]), cfg["foreign"], m.canon())
         ctx.state_keys.add(hashlib.blake2b(repr(c).encode(), digest_size=10).digest())
         ctx.outcome(hashlib.sha1(repr(world.last_obs).encode()).hexdigest()[:12])
         if any(v for v in world.last_obs[0] if v[1]) or level > 1:
